@@ -3,7 +3,17 @@ server content (sets of instance names per class) with a string-split ownership 
 
 The real code under test is pywbem.WBEMSubscriptionManager driving pywbem_mock (FakedWBEMConnection with
 the subscription providers); the observation points are get_owned_*/get_all_*, the exceptions, and the
-interop instance store of the mock read directly (not through the manager)."""
+interop instance store of the mock read directly (not through the manager).
+
+Failing server calls (family 6): the client-facing operations of the mock connection are wrapped (Injector) so that
+the k-th operation issued during ONE manager call raises CIMError(CIM_ERR_FAILED) or pywbem.ConnectionError without
+being executed, for every k up to the number of operations that call makes (dry run). After the failed call the server
+content must lie between the state before the call and the state after the complete call, and every live manager's
+owned lists must equal the owned instances that are in the server now. Then either the same call is repeated and the
+manager leaves (nothing owned may remain, a new manager with the same id finds nothing), or a new manager with the
+same id must rediscover exactly what is left. The one situation no client can handle is modelled explicitly: mode
+'lost' executes the CreateInstance/DeleteInstance in the server and then raises ConnectionError (reply lost); the one
+instance concerned is exempted from the list comparison of the acting manager object (History.exempt), nothing else."""
 import copy
 import io
 import itertools
@@ -32,13 +42,15 @@ R = Run('WBEMSubscriptionManager on 1..2 pywbem_mock servers x 1..3 managers vs 
         '18-symbol alphabet for 1 manager x 1 server + seeded longer ones; 14 listener-URL forms x 7 persistence '
         'types x owned/permanent; unregistered-server, colon-in-id, host-in-path scenarios; seeded random histories '
         'of 10..24 ops (duplicate adds, removals in any order, list arguments, restarts, foreign instances); '
-        'failing server calls: for 22 manager calls (add_server warm/fresh, add_destination, add_filter, '
-        'add_subscriptions, remove_subscriptions, remove_filter, remove_destinations, remove_server, '
-        'remove_all_servers on 2 servers, __exit__) on a populated server with 2 managers the k-th '
+        'failing server calls: for 23 manager calls (add_server with cached/fresh WBEMServer, add_destination, '
+        'add_filter, add_subscriptions, remove_subscriptions, remove_filter, remove_destinations, remove_server, '
+        'remove_all_servers on 2 servers, __exit__; quick: 20) on a populated server with 2 managers the k-th '
         'Create/Get/Delete/Enumerate/ReferenceNames call of that one manager call (every k, from a dry run) raises '
         'CIMError(FAILED) or ConnectionError before execution, or ConnectionError after execution (reply lost: '
-        'Create/Delete only, the lost instance is the one modelled exception), then retry or restart recovery; '
-        'remove_server blocked by another manager\'s subscription; seeded random histories with one faulted call')
+        'Create/Delete only, the lost instance is the one modelled exception), then retry or restart recovery '
+        '(quick: one error kind and one recovery per position, 1 id pair; thorough: the product, 3 id pairs); '
+        'remove_server/remove_all_servers/__exit__ refused partway because of another manager\'s subscription (5 '
+        'shapes); seeded random histories with one faulted call (quick 25, thorough 500)')
 
 FIL = 'CIM_IndicationFilter'
 DST = 'CIM_ListenerDestinationCIMXML'
